@@ -87,6 +87,14 @@ Theorem magic_zip_order_resolves_overlaps :
   zip_detect (Some []) = 0 /\ zip_detect None = 0.
 Proof. exact w_zip_examples. Qed.
 
+(* ZIP family vs the manifest that defines the package type: on archives whose member names are in the plain form every packaging tool
+   writes (relative, no empty, "." or ".." component: then the normalisation is the identity), whose only *.app/Info.plist members are
+   Payload/<x>.app/Info.plist, and that carry at most one of the specific manifests, detectZip answers the type of that manifest, JAR if there
+   is only META-INF/MANIFEST.MF, unknown otherwise — wherever the members sit in the directory *)
+Theorem magic_zip_eq_spec : forall names t,
+  (forall n, In n names -> plain_name n = true) -> ipa_strict names -> spec_zip_type names = Some t -> zip_detect (Some names) = t.
+Proof. intros names t Hp. apply zip_eq_spec. intros n Hin. apply plain_is_normalised. exact (Hp n Hin). Qed.
+
 (* ================================================================== C01 / C03 / C08: the signed output has the type of the input *)
 (* byte-prefix formats (FmtPGP, FmtMSI, FmtCAB, FmtMACHO, FmtXAR; RPM, DEB): ANY file that starts with the magic of a clause is
    detected as that clause's type unless an earlier floating test fires; relic's signers never touch the leading magic *)
@@ -187,6 +195,20 @@ Proof.
   split; [exact route_sign_eq_verify|]. split; [exact sign_refuses_compressed|]. split; [exact verify_compressed|]. split; [exact explicit_type_ignores_content|].
   intros sigtype name o det m H. apply table_self_lookup. exact (by_file_in_table _ _ _ _ _ H).
 Qed.
+(* the per-module fields: only the pgp module may read standard input; deb, pgp and rpm sign with PGP keys, every other module with X.509;
+   mach-o-fat, ipa and pkcs7 are verify-only; `relic sign -f -` is refused without -T, goes to pgp with -T pgp, and is refused for every other
+   type; a verify-only type is refused whatever the input *)
+Theorem magic_module_fields :
+  (map m_name (filter m_stdin signers_table) = [bs "pgp"] /\
+   map m_name (filter (fun m => negb (Z.land (m_cert m) signers_CertTypePgp =? 0)) signers_table) = [bs "deb"; bs "pgp"; bs "rpm"] /\
+   forallb (fun m => (m_cert m =? signers_CertTypeX509) || (m_cert m =? signers_CertTypePgp)) signers_table = true /\
+   map m_name (filter (fun m => negb (m_has_sign m)) signers_table) = [bs "mach-o-fat"; bs "ipa"; bs "pkcs7"] /\
+   forallb (fun m => m_has_verify m || m_has_stream m || bytes_eqb (m_name m) (bs "cosign")) signers_table = true) /\
+  (forall det, sign_route [] (bs "-") true det = Refused E_STDIN) /\
+  (forall det, option_map m_name (route_mod (sign_route (bs "pgp") (bs "-") true det)) = Some (bs "pgp")) /\
+  (forall m det, In m signers_table -> m_has_sign m = true -> m_stdin m = false -> sign_route (m_name m) (bs "-") true det = Refused E_NO_STDIN) /\
+  (forall m name det, In m signers_table -> m_has_sign m = false -> sign_route (m_name m) name true det = Refused E_VERIFY_ONLY).
+Proof. split; [exact module_fields|exact stdin_rules]. Qed.
 (* the shapes these models rely on (step list of ByFile, call order of verifyOne, first-match loops, which statements are present) *)
 Theorem magic_callers_reviewed :
   signers_byfile_steps = [1; 2; 3; 3; 4; 5; 6; 7; 8] /\ verify_calls = [0; 1; 2; 3; 4; 5; 6] /\
@@ -231,5 +253,6 @@ Example ex_quirk_free_pe : spec_matches w_pe64 = [S_PE] /\ quirk_free w_pe64 = t
 Example ex_detect_pe : detect_bytes w_pe64 = Ok 6. Proof. vm_compute. reflexivity. Qed.
 Example ex_detect_compressed_zip : detect_compressed (mkEnv None None (Some zn_jar)) ([80; 75; 3; 4] ++ rep 30 0) = Ok (4, 0). Proof. vm_compute. reflexivity. Qed.
 Example ex_detect_compressed_gz : detect_compressed (mkEnv (Some (rep 257 0 ++ bs "ustar")) None None) [31; 139; 8; 0] = Ok (0, 1). Proof. vm_compute. reflexivity. Qed.
+Example ex_zip_spec_hyp : forallb plain_name zn_jar = true /\ spec_zip_type zn_jar = Some S_JAR /\ lookup_suffix magic_zip_suffix (bs "a/B.class") = None. Proof. vm_compute. repeat split; reflexivity. Qed.
 Example ex_jar_alias : neutral (bs "META-INF/RELIC.SF") = true /\ In (bs ".SF") jar_sig_suffixes. Proof. split; [vm_compute; reflexivity|left; reflexivity]. Qed.
 Example ex_pe_kept_hyp : all_bytes w_pe64 = true /\ rel_mz w_pe64 = true /\ pe_core w_pe64 = true. Proof. vm_compute. repeat split; reflexivity. Qed.
